@@ -370,8 +370,11 @@ func (doc *T) derefSchema(s *Schema, refNameResolver RefNameResolver, parentIsEx
 func (doc *T) derefHeaders(hs Headers, refNameResolver RefNameResolver, parentIsExternal bool) {
 	for _, name := range componentNames(hs) {
 		h := hs[name]
+		if h == nil {
+			continue // a null entry: nothing to internalise
+		}
 		isExternal := doc.addHeaderToSpec(h, refNameResolver, parentIsExternal)
-		if doc.isVisitedHeader(h.Value) {
+		if h.Value == nil || doc.isVisitedHeader(h.Value) {
 			continue
 		}
 		doc.derefParameter(h.Value.Parameter, refNameResolver, parentIsExternal || isExternal)
@@ -388,14 +391,18 @@ func (doc *T) derefExamples(es Examples, refNameResolver RefNameResolver, parent
 func (doc *T) derefContent(c Content, refNameResolver RefNameResolver, parentIsExternal bool) {
 	for _, name := range componentNames(c) {
 		mediatype := c[name]
+		if mediatype == nil {
+			continue // a null entry: nothing to internalise
+		}
 		isExternal := doc.addSchemaToSpec(mediatype.Schema, refNameResolver, parentIsExternal)
 		if mediatype.Schema != nil {
 			doc.derefSchema(mediatype.Schema.Value, refNameResolver, isExternal || parentIsExternal)
 		}
 		doc.derefExamples(mediatype.Examples, refNameResolver, parentIsExternal)
 		for _, name := range componentNames(mediatype.Encoding) {
-			e := mediatype.Encoding[name]
-			doc.derefHeaders(e.Headers, refNameResolver, parentIsExternal)
+			if e := mediatype.Encoding[name]; e != nil {
+				doc.derefHeaders(e.Headers, refNameResolver, parentIsExternal)
+			}
 		}
 	}
 }
